@@ -177,6 +177,9 @@ func (k *RoutineContainer) setRoutineLocked(routine Routine, broadcast func()) (
 		k.routine = r
 		if k.ctx != nil {
 			k.routine.start(k.ctx, prevExitedCh, false)
+		} else {
+			// the next start must still wait for the previous routine to exit
+			r.exitedCh = prevExitedCh
 		}
 		broadcast()
 	} else if wasReset {
